@@ -39,7 +39,7 @@ CFG = {'module': 'Dnp3.Props.C12',
  'assumptions': ['tokio timer and Notify semantics; xxh64 collision-free on compared fragments (model '
                  'compares octets)'],
  'level_text': 'Lean theorems over the session model (shape and correlation of every transmitted fragment, '
-               'silent functions, rejection flagged with the exact WRITE exception) for all states and '
+               'silent functions, rejection flagged, every rejected header of a WRITE included) for all states and '
                'requests; tie: correspondence of the real task vs model over the request space + trace '
                'monitors',
  'level_note': 'trusted: Lean kernel, harness, scripted callbacks; Rust modelled not verified; runtime '
